@@ -232,6 +232,43 @@ def extract_rg_tail(dst):
     return 1
 
 
+def extract_rg_rule(dst):
+    """Rule R7: copy the BODY of the rule-intake loop of yaep_read_grammar (the compound statement of
+    `while ((lhs = (*read_rule) (&rhs, &anode, &anode_cost, &transl)) != NULL)`: one iteration = everything done for one delivered rule)
+    into a generated function whose parameters are the values the callback delivered; `start`, which the body assigns and the code
+    after the loop reads, goes in and out through a pointer.  Must-fire on the loop header; nothing inside the body is dropped.  Not part
+    of this rule: the loop header itself and the four statements between the terminal loop and this loop (error symbol)."""
+    text = open(os.path.join(dst, "yaep.c")).read()
+    sh = _shadow(text)
+    b0, b1 = find_function(text, sh, "yaep_read_grammar")
+    body = text[b0:b1 + 1]
+    bsh = sh[b0:b1 + 1]
+    m0 = [m for m in re.finditer(r"while \(\(lhs = \(\*read_rule\) \(&rhs, &anode, &anode_cost, &transl\)\) != NULL\)", bsh)]
+    if len(m0) != 1:
+        raise StageError("R7: header of the rule-intake loop of yaep_read_grammar did not fire (%d)" % len(m0))
+    o = bsh.find("{", m0[0].end())
+    if o < 0:
+        raise StageError("R7: no body after the rule-intake loop header")
+    depth, c = 0, o
+    while c < len(bsh):
+        if bsh[c] == "{":
+            depth += 1
+        elif bsh[c] == "}":
+            depth -= 1
+            if depth == 0:
+                break
+        c += 1
+    if depth != 0:
+        raise StageError("R7: body of the rule-intake loop is not brace-balanced")
+    region = body[o:c + 1]
+    line = text.count("\n", 0, b0 + o) + 1
+    out = ("/* generated by stage.py rule R7 on every run: body of the rule-intake loop of yaep_read_grammar, text copied verbatim */\n"
+           "static void verif_rg_rule (const char *lhs, const char **rhs, const char *anode, int anode_cost, int *transl, struct symb **start_io)\n{\n"
+           "  struct symb *symb, *start = *start_io;\n  struct rule *rule;\n  int i, el;\n#line %d \"yaep.c\"\n  %s\n  *start_io = start;\n}\n" % (line, region))
+    open(os.path.join(dst, "r7_rg_rule.inc"), "w").write(out)
+    return 1
+
+
 def stage(dst, loops_files=None):
     """Populate dst with the staged sources. Returns info dict."""
     os.makedirs(dst, exist_ok=True)
@@ -290,6 +327,7 @@ def stage(dst, loops_files=None):
     info["r4"] = extract_codes_tail(dst)
     info["r5"] = extract_rg_prefix(dst)
     info["r6"] = extract_rg_tail(dst)
+    info["r7"] = extract_rg_rule(dst)
     # bison exactly as src/CMakeLists.txt does (bison_target -> bison -o sgramm.c sgramm.y)
     r = subprocess.run(["bison", "-o", "sgramm.c", "sgramm.y"], cwd=dst, capture_output=True, text=True)
     if r.returncode != 0 or not os.path.exists(os.path.join(dst, "sgramm.c")):
